@@ -16,17 +16,20 @@ Definition is_inert (c : byte) : bool :=
   (N.leb 48 n && N.leb n 57) || (N.leb 65 n && N.leb n 90) || (N.leb 97 n && N.leb n 122)
   || N.eqb n 45 || N.eqb n 95 || N.eqb n 47.
 
-(* a line containing '/' (directoryRegexp `.*\/`): the text itself followed by
+(* Every pattern is compiled as "(?s)(^|/)(?:%s)$": with the `s` flag '.'
+   matches every byte, '\n' included ([RAny]); `^`/`$` are begin/end of text.
+
+   a line containing '/' (directoryRegexp `.*\/`): the text itself followed by
    ".*"; '.' keeps its regexp meaning; '*' is not modelled there *)
 Fixpoint dir_line_regex (l : bytes) : option regex :=
   match l with
-  | [] => Some (RStar RAnyNoNL)
+  | [] => Some (RStar RAny)
   | c :: r =>
     match dir_line_regex r with
     | None => None
     | Some t =>
       if is_inert c then Some (RCat (RChar c) t)
-      else if beqb c x2e then Some (RCat RAnyNoNL t)
+      else if beqb c x2e then Some (RCat RAny t)
       else None
     end
   end.
@@ -39,7 +42,7 @@ Fixpoint file_line_regex (l : bytes) : option regex :=
     match file_line_regex r with
     | None => None
     | Some t =>
-      if beqb c x2a then Some (RCat (RStar RAnyNoNL) t)
+      if beqb c x2a then Some (RCat (RStar RAny) t)
       else if beqb c x2e then Some (RCat (RChar c) t)
       else if is_inert c then Some (RCat (RChar c) t)
       else None
@@ -50,7 +53,7 @@ Definition ign_line (l : bytes) : option regex :=
   if re_search re_directoryRegexp l then dir_line_regex l else file_line_regex l.
 
 (* the built-in first pattern `\.goit/.*` *)
-Definition ign_builtin : regex := RCat (RLit (str ".goit/"%string)) (RStar RAnyNoNL).
+Definition ign_builtin : regex := RCat (RLit (str ".goit/"%string)) (RStar RAny).
 
 Fixpoint ign_lines (ls : list bytes) : option (list regex) :=
   match ls with
